@@ -13,7 +13,7 @@ enum { VY_LOAD = 1, VY_STORE = 2, VY_COPY_BEGIN = 3, VY_COPY_MID = 4, VY_COPY_EN
 namespace std {
 template <class T> struct verif_atomic {
   T v;
-  verif_atomic() : v() {}
+  verif_atomic() { std::memset(&v, 0xA5, sizeof v); }   // like std::atomic before C++20: no value until one is stored (a poison pattern keeps runs reproducible)
   verif_atomic(T x) : v(x) {}
   verif_atomic(const verif_atomic &) = delete;
   operator T() const { verif_yield(VY_LOAD, &v, nullptr, sizeof(T)); return v; }
